@@ -506,8 +506,8 @@ class Path(object):
             full = os.environ.get("VERIF_DEBUG_FAIL") == "2"
             print("FAIL", name, detail, [e for e in self.trace if full or e[0] in ('call', 'return', 'raise', 'send')][:60 if full else 14])
         prior = [r for r in self.session.results.get(name, []) if r.status == 'failed' and r.model is not None]
-        if len(prior) >= 3:
-            return      # already witnessed three times: further witnesses add nothing
+        if len([r for r in prior if r.detail == detail]) >= 2 or len(prior) >= 16:
+            return      # this reason is already witnessed: further witnesses add nothing
         # cheap feasibility first (arithmetic abstraction), then the full theory with a short limit
         if self.solver.check() == z3.unsat:
             raise Infeasible()
@@ -556,7 +556,7 @@ class Path(object):
                     store.append({'class': o.cls.__name__, 'columns': cols})
             if store:
                 out['__store__'] = store
-            for v in self.inputs.values():
+            for v in getattr(self, 'live_inputs', self.inputs).values():
                 if isinstance(v, Obj) and v.cls.__name__ == 'KmipEngine':
                     pv = v.fields.get('_protocol_version')
                     if pv is not None and not isinstance(pv, (Obj, SOpt)):
@@ -1231,7 +1231,7 @@ class Interp(object):
                 return getattr(self.resolve_enum(v), name)
             if name == 'value':
                 return SInt(v.t)
-            if name == 'name' and len(list(v.cls)) > 40:
+            if name == 'name' and len(list(v.cls)) > 12:
                 return Opaque('str', 'enum.name', facts={'nonempty'})
             return getattr(self.resolve_enum(v), name)
         if isinstance(v, (SSeq, SInt, SBool, MutBytes, SList, SDict)) or \
@@ -1278,6 +1278,9 @@ class Interp(object):
                 if isinstance(a, classmethod):
                     return BoundMethod(cls or k, a.__func__, k)
                 if isinstance(a, property):
+                    r = self._optional_value_getter(obj, a.fget)
+                    if r is not NotImplemented:
+                        return r
                     return self.call_value(BoundMethod(obj, a.fget, k), [], {})
                 if isinstance(obj, Obj) and obj.meta.get('db'):
                     from . import dbmodel
@@ -1300,6 +1303,45 @@ class Interp(object):
             return dyn(self, obj, name)
         tname = (cls or (mro[0] if mro else object)).__name__
         self.raise_py(AttributeError, "'%s' object has no attribute '%s'" % (tname, name))
+
+    _OPT_GETTERS = {}
+
+    def _optional_value_getter(self, obj, fget):
+        """The accessor idiom  `if self._x: return self._x.value` / `return None`  applied to a
+        maybe-absent holder object: its result is the maybe-absent value itself, computed without
+        splitting the path (the same value the body computes on either branch)."""
+        if not isinstance(obj, Obj) or not isinstance(fget, types.FunctionType):
+            return NotImplemented
+        pat = Interp._OPT_GETTERS.get(fget)
+        if pat is None:
+            pat = False
+            try:
+                ex = extract.of_function(fget)
+                body = ex.body()
+                if len(body) in (1, 2) and isinstance(body[0], ast.If) and len(body[0].body) == 1 \
+                        and isinstance(body[0].body[0], ast.Return):
+                    t, ret = body[0].test, body[0].body[0].value
+                    tail = body[0].orelse if len(body) == 1 else [body[1]]
+                    none_tail = len(tail) == 1 and isinstance(tail[0], ast.Return) and (
+                        tail[0].value is None or (isinstance(tail[0].value, ast.Constant) and tail[0].value.value is None))
+                    if none_tail and isinstance(t, ast.Attribute) and isinstance(t.value, ast.Name) \
+                            and t.value.id == 'self' and isinstance(ret, ast.Attribute) and ret.attr == 'value' \
+                            and ast.dump(ret.value) == ast.dump(t):
+                        pat = t.attr
+            except Exception:
+                pat = False
+            Interp._OPT_GETTERS[fget] = pat
+        if not pat:
+            return NotImplemented
+        held = obj.fields.get(pat, NotImplemented)
+        if not isinstance(held, SOpt) or not isinstance(held.v, Obj) or 'value' not in held.v.fields:
+            return NotImplemented
+        if self._class_attr(held.v.cls, '__bool__') is not None or self._class_attr(held.v.cls, '__len__') is not None:
+            return NotImplemented
+        inner = held.v.fields['value']
+        if isinstance(inner, SOpt) or inner is None:
+            return NotImplemented
+        return SOpt(held.isnone, inner)
 
     def setattr(self, v, name, value):
         if isinstance(v, SOpt):
